@@ -22,6 +22,7 @@ EXPLANATION = (
     "among kept nodes are exported); R18.4 the text summary reads the runner's sorted accessors, each `sorted(<set>, key=str)`. "
     "R18.5 the export is recomputed from this runner's own graph on every call: no memo, no class-level store (= R11.3). Does not decide: that the graph itself is right (C01-C06)."
     ' R18.2 also requires, for the classes whose objects are exported nodes, that equal objects print the same (identity compares the printed name or exactly the plain fields it prints). R18.7 (= R03.1 / R03.2) the tags behind the summary describe the exported graph.'
+    " R18.1 the graph given is the graph serialised (the parameter is not re-bound to a copy); R18.8 (= R17.4) the /lineage response is built from the request's own locals."
 )
 RULE_TEXT = "one obligation per comprehension of the serialiser, per exported class (I3), per sub-graph view and per summary section"
 
